@@ -187,3 +187,65 @@ def c05d(F, R):
             return f"LintError::{v} is located on payload field {idx}, not on its subject (field 0: {variant['fields'][0]['ty']})"
         return None
     _triples(F, R, LINTERR, subj)
+
+
+@rule("C05", "C05.e.operand-search-cuts", floor=4)
+def c05e(F, R):
+    """the breadth-first searches that pick the reported operand (first store / first usage) cut a path only at an already visited node or at the node they were looking for"""
+    from .g2 import real_breaks
+    for suffix, found_call in (("::Cfg::error_ranges_for_first_usage", "gen_reg"), ("::Cfg::error_ranges_for_first_store", "writes_to")):
+        c = [q for q in F.fns if q.endswith(suffix)]
+        if len(c) != 1:
+            raise Anchor(f"{suffix}: {len(c)} candidates")
+        f = F.fn(c[0])
+        name = short(c[0])
+        loops = [l for l in walk(f["hir"]["value"], pats=False) if l.get("k") == "Loop" and l.get("src") == "While"
+                 and any(m.get("k") == "MethodCall" and m["name"] in ("pop_front", "pop", "pop_back") for m in walk(l, pats=False))]
+        if len(loops) != 1:
+            R.bad(f"{name}|shape", f"UNEXTRACTABLE: expected one worklist loop, found {len(loops)}", f["sp"])
+            continue
+        # the loop body after while-let desugaring: the `Some(x) => { .. }` arm's block
+        body = None
+        for m in walk(loops[0]["body"], pats=False):
+            if m.get("k") == "Match" or m.get("k") == "If":
+                pass
+        def direct_extend(st):
+            e = st.get("e") or {}
+            while e.get("k") in ("DropTemps", "Use"):
+                e = e["e"]
+            return e.get("k") == "MethodCall" and e["name"] == "extend"
+        blocks = [b for b in walk(loops[0]["body"], pats=False) if b.get("k") == "Block" and any(direct_extend(st) for st in b.get("stmts", []))]
+        if not blocks:
+            R.bad(f"{name}|shape", "UNEXTRACTABLE: the worklist loop does not re-fill its queue with `extend`", f["sp"])
+            continue
+        blk = blocks[0]
+        stmts = blk.get("stmts", []) + ([{"k": "Expr", "e": blk["expr"]}] if blk.get("expr") else [])
+        ext = next(i for i, s in enumerate(stmts) if direct_extend(s))
+        seen_found = False
+        n = 0
+        for s in stmts[:ext]:
+            cuts = real_breaks(s) + [x for x in walk(s, pats=False) if x.get("k") == "Continue" and not (x.get("exp") or "").startswith("desugar:")]
+            if not cuts:
+                continue
+            n += 1
+            e = s.get("e") or {}
+            while e.get("k") in ("DropTemps", "Use"):
+                e = e["e"]
+            cond = e.get("cond") if e.get("k") == "If" else None
+            if cond is None:
+                R.bad(f"{name}|cut|unconditional", f"{name}: the search stops unconditionally before following the next nodes", loc(s))
+                continue
+            calls = {m["name"] for m in walk(cond, pats=False) if m.get("k") == "MethodCall"}
+            if "contains" in calls and any(x.get("k") == "Path" and x.get("res") == "visited" or "HashSet" in (x.get("ty") or "") for x in walk(cond, pats=False)) and found_call not in calls and not (calls & {"kill_reg", "gen_reg", "writes_to", "reads_from"}):
+                if seen_found:
+                    R.bad(f"{name}|cut|visited-late", f"{name}: the visited test comes after the node was already examined", loc(s))
+                else:
+                    R.ok(f"{name}|cut|visited", detail="path cut at an already visited node")
+            elif found_call in calls:
+                seen_found = True
+                R.ok(f"{name}|cut|found", detail=f"path cut where `{found_call}` identifies the searched node")
+            else:
+                R.bad(f"{name}|cut|{'+'.join(sorted(calls)) or 'other'}", f"{name}: the search is cut under `{ekey(cond)[:80]}`, which is neither 'already visited' nor 'found': a use/store behind such a node is never reported"
+                      + (" (a read-modify-write instruction both uses and redefines the register; the use comes first)" if "kill_reg" in calls or "writes_to" in calls else ""), loc(s))
+        if n < 2:
+            R.bad(f"{name}|cuts", f"{name}: expected the visited cut and the found cut, saw {n}", f["sp"])
